@@ -103,11 +103,13 @@ async def rescan_env_vars(workflow: Workflow, reporter: ReporterClient):
     # One step may use several changed variables, so it is collected only once.
     steps_to_rerun = {}
     reported_names = set()
+    changed = []
     for node_i, label, name, old_value in env_var_uses:
         new_value = os.getenv(name)
         if new_value == old_value:
             continue
         steps_to_rerun[node_i] = Step(workflow, node_i, label)
+        changed.append((new_value, node_i, name))
         if name not in reported_names:
             reported_names.add(name)
             old_fmt = fmt_env_value(old_value)
@@ -118,6 +120,11 @@ async def rescan_env_vars(workflow: Workflow, reporter: ReporterClient):
         async with workflow.db:
             for step in steps_to_rerun.values():
                 workflow.mark_step_pending(step)
+            # Remember the value that was seen, so that a later change is measured against it
+            # (also a change back to the value at declaration time).
+            workflow.db.executemany(
+                "UPDATE env_var SET value = ? WHERE node = ? AND name = ?", changed
+            )
 
 
 async def rescan_files(workflow: Workflow, reporter: ReporterClient, builder: Builder):
